@@ -55,6 +55,7 @@ func c20(c *Ctx) {
 	c20Set(c)
 	c20Groups(c)
 	c20Detector(c)
+	c20FrameTrimmed(c)
 }
 
 func c20Sends(c *Ctx) {
